@@ -84,11 +84,13 @@ example : UAgrees (Update.step small [] g1 2 ["A", "B", "T"] createB) (Spec.appl
 
 /-! ### counterexamples: `C12_full` is false of the model (and of the engine: corpus/update/*.ops) -/
 
-/-- formerly a counterexample (ON MATCH SET writes were not counted), repaired by fix 9108f42 -/
+/-- ON MATCH SET writes are not counted: `MERGE (m:A) ON MATCH SET m.j = 9` reports 0 (a repair was tried and
+    withdrawn: tests/t323_merge_semantics.rs pins MERGE's count as the number of entities created) -/
 def sMergeSet : Stmt :=
   ⟨[], [.merge ⟨⟨some "m", ["A"], []⟩, []⟩ [] [.prop "m" "j" (.lit (.int 9))]]⟩
 
-example : UAgrees (Update.step small [] g1 2 ["A", "B", "T"] sMergeSet) (Spec.apply small [] g1 2 sMergeSet) := by
+theorem counterexample_merge_set_not_counted :
+    ¬ UAgrees (Update.step small [] g1 2 ["A", "B", "T"] sMergeSet) (Spec.apply small [] g1 2 sMergeSet) := by
   decide
 
 /-- a variable bound to null is taken for unbound: `MATCH (a) OPTIONAL MATCH (a)-[r]->(b) CREATE (a)-[:T]->(b)`
@@ -173,17 +175,6 @@ def sRecreate : Stmt :=
 theorem counterexample_deleted_rel_props_resurrect :
     ¬ UAgrees (Update.step small [] gDead 2 ["A", "B", "T"] sRecreate)
       (Spec.apply small [] (Update.live gDead) 2 sRecreate) := by
-  decide
-
-/-- ON MATCH is applied once per enumerated (direction, copy): an undirected MERGE over a self-loop applies and
-    counts it twice -/
-def gLoop : Graph := ⟨[⟨0, [], []⟩], [⟨⟨0, "U", 0⟩, 1, []⟩]⟩
-def sMergeLoop : Stmt :=
-  ⟨[.match_ false [⟨⟨some "a", [], []⟩, []⟩]],
-   [.merge ⟨⟨some "a", [], []⟩, [(⟨some "m", ["U"], .both, []⟩, ⟨some "a", [], []⟩)]⟩ [] [.prop "m" "j" (.lit (.int 1))]]⟩
-
-theorem counterexample_merge_match_multiplicity :
-    ¬ UAgrees (Update.step small [] gLoop 1 ["U"] sMergeLoop) (Spec.apply small [] gLoop 1 sMergeLoop) := by
   decide
 
 /-- hence the full-strength statement fails -/
